@@ -57,7 +57,15 @@ class DenseModule:
 
 
 def nn_models(ex, counter):
-    nn = NS("flax.linen", {k: (lambda f: (lambda ex_, x: f(x)))(f) for k, f in ACT.items()})
+    def act(name):
+        def f(ex_, x, **kw):
+            # keyword arguments select a different function (e.g. gelu(approximate=False) is not the default gelu)
+            if not kw:
+                return ACT[name](x)
+            tag = ",".join(f"{k}={kw[k]!r}" for k in sorted(kw))
+            return z3.Function(f"act_{name}[{tag}]", Leaf, Leaf)(x)
+        return f
+    nn = NS("flax.linen", {k: act(k) for k in ACT})
     nn.entries["Dense"] = lambda ex_, units, **k: DenseModule(counter)
     nn.entries["initializers"] = NS("init", {"uniform": lambda ex_, **k: None, "zeros": None})
     nn.entries["compact"] = lambda ex_, f: f
